@@ -1,12 +1,12 @@
-SPECIFICATION Spec
+SPECIFICATION FairSpec
 CONSTANTS
-  Gor = {"g1", "g2", "g3"}
-  Eps = {"E", "F"}
-  Svcs = {"xe", "e", "ef", "f", "t"}
+  Gor = {"g1", "g2"}
+  Eps = {"E"}
+  Svcs = {"xe"}
   Adv <- AdvAll
-  MaxReq = 1
-  MaxLoss = 0
-  AuthMayRefuse = FALSE
+  MaxReq = 2
+  MaxLoss = 1
+  AuthMayRefuse = TRUE
   Dev_RUnlockUnderWriteLock = FALSE
   Dev_NilChannelWhenAllSkipped = FALSE
   Dev_AuthFailureLeaksConnection = FALSE
@@ -14,4 +14,5 @@ CONSTANTS
   Dev_PoolKeyedByAdvertised = FALSE
   Dev_CloserBeforeInsert = FALSE
 INVARIANTS TypeOK ProcessAlive NoBadUnlock MutexOK RequestOutcome ReturnedIsOpen AtMostOneConnPerEndpoint ExtraConnectionsClosed PoolHoldsLiveClients AllGetTheSharedClient NoDeadlock
+PROPERTIES Terminates LostIsForgotten
 CHECK_DEADLOCK FALSE
